@@ -10,7 +10,7 @@
    CalculateNextWorkRequired, CheckProofOfWork). *)
 From V Require Import Base.Prelude Base.Ints Model.Helper Model.Block Model.Merkle Model.MerkleBlock
   Model.Pow Spec.Bip37 Spec.CorePow
-  Proofs.MerkleP Proofs.Bip37P Proofs.MerkleBlockP Proofs.MerkleRefine Proofs.PowP Proofs.PowP2 Proofs.PowP3.
+  Proofs.MerkleP Proofs.Bip37P Proofs.MerkleBlockP Proofs.MerkleRefine Proofs.MerkleRefineGen Proofs.PowP Proofs.PowP2 Proofs.PowP3.
 
 (* ---------------------------------------------------------------------------------- *)
 (* (1) Merkle root *)
@@ -142,12 +142,15 @@ Example C17_forged_id_is_foreign :
 Proof. cbn. intros [E|[E|[]]]; discriminate E. Qed.
 
 (* ---------------------------------------------------------------------------------- *)
-(* (5) the cursor machine of MerkleTree.populate_tree equals the recursive traversal:
-   checked exhaustively by kernel evaluation for every total 1..6 (sweep_max_total), every flag string over
-   {0,1} up to the longest the tree can consume (+1), every number of supplied hashes
-   (hash256 := concatenation keeps every node value distinguishable).  PARTIAL: the
-   general statement  forall total bits hs, populate_tree = populate_tree_rec  is tied by
-   correspondence only (both models are run against the implementation on every case). *)
+(* (5) the cursor machine of MerkleTree.populate_tree equals the recursive traversal.
+   The GENERAL statement is proved (C17_cursor_machine_refines_traversal below, from
+   Proofs/MerkleRefineGen.v): for every hash function, every total (no upper bound), every
+   flag list and every hash list  populate_tree = populate_tree_rec, error cases included
+   (the machine raises exactly when the traversal does: flag bits / hashes running out,
+   leftover bits / hashes; populate_fuel always suffices).  The two bounded sweeps are kept
+   as cheap regression checks by kernel evaluation: every total 1..6 (sweep_max_total),
+   every flag string over {0,1} up to the longest the tree can consume (+1), every number of
+   supplied hashes (hash256 := concatenation keeps every node value distinguishable). *)
 Theorem C17_cursor_machine_refines_traversal_partial :
   forall total bits nh,
   In total (map Z.of_nat (seq 1 sweep_max_total)) ->
@@ -169,6 +172,45 @@ Theorem C17_cursor_machine_refines_traversal_flags012_partial :
   populate_tree_rec (fun x => x) total bits (sym_hashes nh).
 Proof. exact machine_eq_traversal_sweep3. Qed.
 Print Assumptions C17_cursor_machine_refines_traversal_flags012_partial.
+
+(* the general statement: the faithful cursor machine (node table, current depth / index,
+   one loop iteration per unit of fuel) and the recursive depth-first traversal return the
+   same result — the same (root, proved ids) or both raise — on ALL inputs *)
+Theorem C17_cursor_machine_refines_traversal : forall (hash256 : bytes -> bytes) total bits hs,
+  populate_tree hash256 total bits hs = populate_tree_rec hash256 total bits hs.
+Proof. exact machine_eq_traversal. Qed.
+Print Assumptions C17_cursor_machine_refines_traversal.
+
+(* hence MerkleBlock.is_valid on the machine is is_valid on the traversal ... *)
+Theorem C17_is_valid_machine_eq_traversal : forall (hash256 : bytes -> bytes) hdr_root total hashes flags,
+  mb_is_valid hash256 hdr_root total hashes flags =
+  mb_is_valid_rec hash256 hdr_root total hashes flags.
+Proof. exact mb_is_valid_eq_rec. Qed.
+Print Assumptions C17_is_valid_machine_eq_traversal.
+
+(* ... and (2) completeness and (3) soundness with known total hold for the faithful
+   cursor machine [mb_is_valid] *)
+Theorem C17_proof_complete_machine : forall (hash256 : bytes -> bytes) (ids : list bytes) (matches : list bool),
+  ids <> [] -> length matches = length ids ->
+  let txids := map (@rev Z) ids in
+  let '(total, hashes, flags) := bip37_proof hash256 txids matches in
+  total = zlen ids /\
+  mb_is_valid hash256 (rev (consensus_root hash256 txids)) total (map (@rev Z) hashes) flags
+  = Ok (true, sel ids matches).
+Proof. exact proof_complete_machine. Qed.
+Print Assumptions C17_proof_complete_machine.
+
+Theorem C17_proof_sound_known_total_machine : forall (hash256 : bytes -> bytes),
+  (forall x, length (hash256 x) = 32%nat) ->
+  forall (ids : list bytes) hdr_root hashes flags proved,
+  ids <> [] -> Forall (fun t => length t = 32%nat) ids ->
+  Forall (fun t => length t = 32%nat) hashes ->
+  validate_merkle_root hash256 hdr_root ids = Ok true ->
+  mb_is_valid hash256 hdr_root (zlen ids) hashes flags = Ok (true, proved) ->
+  (forall m, In m proved -> In m ids) \/
+  (exists x y : bytes, x <> y /\ hash256 x = hash256 y).
+Proof. exact proof_sound_known_total_machine. Qed.
+Print Assumptions C17_proof_sound_known_total_machine.
 
 (* ---------------------------------------------------------------------------------- *)
 (* (6) compact bits *)
